@@ -315,9 +315,10 @@ static void make_bg(const c12_grid *g, int W, int H, int kind, int *bg)
         bg[y * W + x] = kind == 0 ? 0 : g->bpp == 1 ? ((x + y) & 1) : g->bpp == 4 ? ((x * 5 + y * 3 + 1) & 15) : ((x * 67 + y * 29 + 200) & 255);
 }
 
+/* the ten evidence samples are spread over the kinds of space (raster, offsets, shared edge, triangles; composite takes the rest) */
+static const int sample_quota[4] = { 3, 4, 5, 8 };
 static void note_case(const c12_grid *g, const timg *m, const int *ideal, const char *desc)
 {
-    if (!desc && !vf_in_confirm && vf_want_sample()) desc = cur_desc();
     int W = m->W, H = m->H, any = 0, partial = 0, clear = 0;
     for (int i = 0; i < W * H; i++) { if (ideal[i] > 0) any = 1; if (ideal[i] > 0 && ideal[i] < g->maxv) partial = 1; if (ideal[i] == 0) clear = 1; }
     int nt = g->bpp == 1 ? (any && clear) : partial;
@@ -326,7 +327,10 @@ static void note_case(const c12_grid *g, const timg *m, const int *ideal, const 
     if (!vf_in_confirm) {
         uint64_t h = vf_hash64(m->bits, (size_t)m->stride * H, (uint64_t)m->fmt * 131 + (uint64_t)W * 17 + (uint64_t)H);
         vf_outcome(h);
-        if (nt && desc && vf_want_sample()) { char a[400]; vf_sample("%s -> %s", desc, timg_str(m, a, sizeof a)); }
+        /* samples: thinned by the result hash so that they are not ten neighbours of the first space */
+        if (nt && (h % 1021) == 3 && vf->nsamples < sample_quota[G.kind] && vf_want_sample()) {
+            char a[400]; vf_sample("%s -> %s", desc ? desc : cur_desc(), timg_str(m, a, sizeof a));
+        }
     }
 }
 
@@ -537,7 +541,11 @@ static void edge_case(uint64_t idx, void *vctx)
     {
         int partial = 0; for (int i = 0; i < W * H; i++) if (ideal[i] > 0 && (g->bpp == 1 || ideal[i] < g->maxv)) partial = 1;
         if (partial) vf_count_nontrivial(1);
-        if (!vf_in_confirm) vf_outcome(vf_hash64(B.bits, (size_t)B.stride * H, 77 + (uint64_t)c->fmt));
+        if (!vf_in_confirm) {
+            uint64_t h = vf_hash64(B.bits, (size_t)B.stride * H, 77 + (uint64_t)c->fmt);
+            vf_outcome(h);
+            if (partial && (h % 1021) == 3 && vf->nsamples < sample_quota[2] && vf_want_sample()) { char a[400]; vf_sample("shared edge: %s -> %s", cur_desc(), timg_str(&B, a, sizeof a)); }
+        }
     }
     soft_flush();
     timg_fini(&A); timg_fini(&B);
@@ -752,7 +760,8 @@ static void comp_case(uint64_t idx, void *vctx)
     int covered = 0, partial = 0; c12_grid mg = c12_mkgrid(PIXMAN_FORMAT_BPP(c->mfmt));
     for (int y = 0; y < H; y++) for (int x = 0; x < W; x++) { int v = timg_get(&Mk, x, y); if (v) covered = 1; if (v < mg.maxv || mg.bpp == 1) partial = 1; }
     if (covered && partial) vf_count_nontrivial(1);
-    if (!vf_in_confirm) vf_outcome(vf_hash64(D1i.bits, (size_t)D1i.stride * H, 1000 + d[1]));
+    uint64_t oh = vf_hash64(D1i.bits, (size_t)D1i.stride * H, 1000 + d[1]);
+    if (!vf_in_confirm) vf_outcome(oh);
     int same = timg_same(&D1i, &D2i);
     if (!same && tl->n == 0) {
         /* An empty list is not "a trapezoid": the statement does not say whether the operator is then applied with an all-zero
@@ -780,7 +789,7 @@ static void comp_case(uint64_t idx, void *vctx)
         }
         vf_violation(key, "composite_trapezoids (A) differs from rasterise-to-mask + composite32 (B); %s; A %s B %s mask %s", desc, timg_str(&D1i, a, sizeof a),
                      timg_str(&D2i, b, sizeof b), timg_str(&Mk, m, sizeof m));
-    } else if (covered && partial && !vf_in_confirm && vf_want_sample()) {
+    } else if (covered && partial && !vf_in_confirm && (oh % 1021) == 3 && vf_want_sample()) {
         char a[400]; vf_sample("%s -> %s", desc, timg_str(&D1i, a, sizeof a));
     }
     timg_fini(&D1i); timg_fini(&D2i); timg_fini(&Mk); pixman_image_unref(src);
@@ -839,18 +848,35 @@ static void grid_selftest(void)
     }
 }
 
+/* One engine space = the same enumeration for several contexts (the three depths) back to back: index ranges are concatenated.
+ * (vf.h keeps at most 96 space records, so the depths are not separate spaces.) */
+typedef struct { int n; void *ctx[4]; uint64_t size[4]; vf_case_fn fn; } multi;
+static void multi_case(uint64_t idx, void *v)
+{
+    const multi *m = v;
+    for (int i = 0; i < m->n; i++) { if (idx < m->size[i]) { m->fn(idx, m->ctx[i]); return; } idx -= m->size[i]; }
+}
+static void multi_run(const char *name, multi *m)
+{
+    uint64_t N = 0; for (int i = 0; i < m->n; i++) N += m->size[i];
+    vf_space_run(name, N, multi_case, m);
+}
+
 int main(int argc, char **argv)
 {
     vf_init(argc, argv, "C12", "exploration");
     int th = vf_is_thorough();
     vf_rule = "E1 bounded-exhaustive enumeration: every tuple of the Cartesian product of the stated alphabets is rasterised by the real library and compared "
-              "(i) pixel by pixel with the ideal sample-count model c12_ref.h (exact rational edge positions in __int128) and (ii) with metamorphically equal requests. "
-              "evaluations = shapes/requests executed; non-trivial = the shape covers at least one sample and leaves at least one pixel partially covered "
-              "(a1: at least one pixel set and one clear); outcomes = distinct result images.";
+              "(i) pixel by pixel with the ideal sample-count model c12_ref.h (exact rational edge positions, no stepping) and (ii) with metamorphically equal requests "
+              "(horizontal split, shared-edge split, offsets, accessor path, add_traps/add_trapezoids, triangle vertex order and decomposition, composite route). "
+              "evaluations = shapes/requests executed and judged (shared-edge tuples whose middle line is not between the outer ones are skipped and not counted); "
+              "non-trivial = the shape covers at least one sample and leaves at least one pixel partially covered (a1: at least one pixel set and one clear); "
+              "outcomes = distinct result images (the set saturates at 4194304).";
     vf_assume("the sample grid per depth is as derived in c12_ref.h from the depth alone (checked at start-up on unit squares: full pixel == maximum)");
-    vf_assume("coordinates stay within +-1000 pixels and |y| far from 32767: pixman_sample_floor_y saturation (finding #3) belongs to C04");
-    vf_assume("edge lines always span [top,bottom] (end points at top/bottom or beyond), so edge positions are interpolated, never extrapolated");
+    vf_assume("coordinates stay within +-1000 pixels (+-3000 for extrapolated edges) and |y| far from 32767: pixman_sample_floor_y saturation (finding #3) belongs to C04");
+    vf_assume("edge lines span [top,bottom] or are extrapolated by at most their own length (variant 3); near-horizontal edges extrapolated beyond int32 x are not enumerated");
     vf_assume("pixman_image_composite32 itself is trusted here (C01/C03): the composite route check compares two uses of it");
+    vf_assume("an empty trapezoid list (n_traps == 0) may be a no-op or an all-zero mask composite: the statement is about trapezoids");
     grid_selftest();
 
     pixman_format_code_t fmts[3] = { PIXMAN_a1, PIXMAN_a4, PIXMAN_a8 };
@@ -867,28 +893,28 @@ int main(int argc, char **argv)
             { 70, 1, 1 } };                              /* a1 only: whole 32-bit words in the middle of a span */
         for (unsigned s = 0; s < sizeof sizes / sizeof sizes[0]; s++) {
             if (!th && !sizes[s].q) continue;
-            int W = sizes[s].W, H = sizes[s].H, nbg = W * H <= 6 ? 2 : 1;
-            for (int f = 0; f < 3; f++) {
-                static tctx c;
-                if (W == 70 && f != 0) continue;
-                /* quick, and the non-main sizes of thorough: y 11 values, x 8 values, end-point variants {0,1} per edge;
-                 * thorough main sizes: x 12 values, variants {0,1,2,3} */
-                if (th && sizes[s].q) ras_setup(&c, fmts[f], W, H, 1, 2, 4, nbg, 1, 1);
-                else ras_setup(&c, fmts[f], W, H, 1, 1, 2, th ? 2 : nbg, 1, 1);
-                snprintf(nm, sizeof nm, "raster-%s-%dx%d", fmtname(fmts[f]), W, H);
-                vf_space_run(nm, vf_product(c.dims, c.nd), ras_case, &c);
-                /* quick: the extrapolating variant (edge lines that end inside (top,bottom)) on two sizes */
-                if (!th && ((W == 3 && H == 2) || (W == 6 && H == 4))) {
-                    ras_setup(&c, fmts[f], W, H, 1, 1, -3, 1, 1, 0);
-                    snprintf(nm, sizeof nm, "raster-extrap-%s-%dx%d", fmtname(fmts[f]), W, H);
-                    vf_space_run(nm, vf_product(c.dims, c.nd), ras_case, &c);
-                }
-                /* thorough: the large y alphabet (21 values: every sample-row neighbourhood, quarter positions) on three sizes */
-                if (th && ((W == 1 && H == 1) || (W == 3 && H == 2) || (W == 6 && H == 4))) {
-                    ras_setup(&c, fmts[f], W, H, 2, 2, 2, 1, 1, 1);
-                    snprintf(nm, sizeof nm, "raster-bigY-%s-%dx%d", fmtname(fmts[f]), W, H);
-                    vf_space_run(nm, vf_product(c.dims, c.nd), ras_case, &c);
-                }
+            int W = sizes[s].W, H = sizes[s].H, nbg = W * H <= 6 ? 2 : 1, nf = W == 70 ? 1 : 3;
+            static tctx c[3]; multi m; m.fn = ras_case; m.n = nf;
+            /* quick, and the non-main sizes of thorough: y 11 values, x 8 values, end-point variants {0,1} per edge;
+             * thorough main sizes: x 12 values, variants {0,1,2,3} */
+            for (int f = 0; f < nf; f++) {
+                if (th && sizes[s].q) ras_setup(&c[f], fmts[f], W, H, 1, 2, 4, nbg, 1, 1);
+                else ras_setup(&c[f], fmts[f], W, H, 1, 1, 2, th ? 2 : nbg, 1, 1);
+                m.ctx[f] = &c[f]; m.size[f] = vf_product(c[f].dims, c[f].nd);
+            }
+            snprintf(nm, sizeof nm, "raster-%dx%d", W, H);
+            multi_run(nm, &m);
+            /* quick: the extrapolating variant (edge lines that end inside (top,bottom)) on two sizes */
+            if (!th && ((W == 3 && H == 2) || (W == 6 && H == 4))) {
+                for (int f = 0; f < 3; f++) { ras_setup(&c[f], fmts[f], W, H, 1, 1, -3, 1, 1, 0); m.size[f] = vf_product(c[f].dims, c[f].nd); }
+                snprintf(nm, sizeof nm, "raster-extrap-%dx%d", W, H);
+                multi_run(nm, &m);
+            }
+            /* thorough: the large y alphabet (21 values: every sample-row neighbourhood, quarter positions) on three sizes */
+            if (th && ((W == 1 && H == 1) || (W == 3 && H == 2) || (W == 6 && H == 4))) {
+                for (int f = 0; f < 3; f++) { ras_setup(&c[f], fmts[f], W, H, 2, 2, 2, 1, 1, 1); m.size[f] = vf_product(c[f].dims, c[f].nd); }
+                snprintf(nm, sizeof nm, "raster-bigY-%dx%d", W, H);
+                multi_run(nm, &m);
             }
         }
     }
@@ -897,12 +923,13 @@ int main(int argc, char **argv)
         struct { int W, H, q; } sizes[] = { { 2, 2, 1 }, { 5, 3, 1 }, { 1, 1, 0 }, { 6, 4, 0 }, { 9, 2, 0 } };
         for (unsigned s = 0; s < sizeof sizes / sizeof sizes[0]; s++) {
             if (!th && !sizes[s].q) continue;
+            static tctx c[3]; multi m; m.fn = off_case; m.n = 3;
             for (int f = 0; f < 3; f++) {
-                static tctx c;
-                off_setup(&c, fmts[f], sizes[s].W, sizes[s].H, th ? 1 : 0, th ? 1 : 0, th ? 4 : 2);
-                snprintf(nm, sizeof nm, "offsets-%s-%dx%d", fmtname(fmts[f]), sizes[s].W, sizes[s].H);
-                vf_space_run(nm, vf_product(c.dims, c.nd), off_case, &c);
+                off_setup(&c[f], fmts[f], sizes[s].W, sizes[s].H, th ? 1 : 0, th ? 1 : 0, th ? 4 : 2);
+                m.ctx[f] = &c[f]; m.size[f] = vf_product(c[f].dims, c[f].nd);
             }
+            snprintf(nm, sizeof nm, "offsets-%dx%d", sizes[s].W, sizes[s].H);
+            multi_run(nm, &m);
         }
     }
     /* (3) shared edge */
@@ -910,13 +937,14 @@ int main(int argc, char **argv)
         struct { int W, H, q; } sizes[] = { { 3, 2, 1 }, { 9, 2, 1 }, { 6, 4, 0 } };
         for (unsigned s = 0; s < sizeof sizes / sizeof sizes[0]; s++) {
             if (!th && !sizes[s].q) continue;
+            static tctx c[3]; multi m; m.fn = edge_case; m.n = 0;
             for (int f = 0; f < 3; f++) {
-                static tctx c;
-                edge_setup(&c, fmts[f], sizes[s].W, sizes[s].H, 0, th ? 1 : 0, 2);
                 if (sizes[s].W == 9 && f != 2) continue;     /* the wide size is there for the a8 span-fill optimisation */
-                snprintf(nm, sizeof nm, "shared-edge-%s-%dx%d", fmtname(fmts[f]), sizes[s].W, sizes[s].H);
-                vf_space_run(nm, vf_product(c.dims, c.nd), edge_case, &c);
+                edge_setup(&c[f], fmts[f], sizes[s].W, sizes[s].H, 0, th ? 1 : 0, 2);
+                m.ctx[m.n] = &c[f]; m.size[m.n] = vf_product(c[f].dims, c[f].nd); m.n++;
             }
+            snprintf(nm, sizeof nm, "shared-edge-%dx%d", sizes[s].W, sizes[s].H);
+            multi_run(nm, &m);
         }
     }
     /* (4) triangles */
@@ -924,12 +952,13 @@ int main(int argc, char **argv)
         struct { int W, H, q; } sizes[] = { { 4, 3, 1 }, { 6, 4, 0 }, { 2, 2, 0 } };
         for (unsigned s = 0; s < sizeof sizes / sizeof sizes[0]; s++) {
             if (!th && !sizes[s].q) continue;
+            static trictx c[3]; multi m; m.fn = tri_case; m.n = 3;
             for (int f = 0; f < 3; f++) {
-                static trictx c;
-                tri_setup(&c, fmts[f], sizes[s].W, sizes[s].H, th);
-                snprintf(nm, sizeof nm, "triangles-%s-%dx%d", fmtname(fmts[f]), sizes[s].W, sizes[s].H);
-                vf_space_run(nm, vf_product(c.dims, c.nd), tri_case, &c);
+                tri_setup(&c[f], fmts[f], sizes[s].W, sizes[s].H, th);
+                m.ctx[f] = &c[f]; m.size[f] = vf_product(c[f].dims, c[f].nd);
             }
+            snprintf(nm, sizeof nm, "triangles-%dx%d", sizes[s].W, sizes[s].H);
+            multi_run(nm, &m);
         }
     }
     /* (5) composite_trapezoids route independence */
@@ -944,11 +973,17 @@ int main(int argc, char **argv)
             free(c.lists);
         }
     }
-    vf_bounds = th ? "targets a1/a4/a8, all sizes 1x1..6x4 plus 9x2 16x2 13x3; y alphabet 10 values (20 on the seven main sizes), x alphabet 8 (12) values incl. +-1000 px, "
-                     "2 (3) end-point variants per edge, 2 backgrounds; every horizontal split at an alphabet value; offsets {0,+-1}^2 on 5 sizes; shared-edge splits with 8^2 middle lines; "
-                     "triangles over 49 points^3 x offsets on 3 sizes; composite_trapezoids: 18 operators x 4 sources x 3 clips x 5 dst offsets x 2 src offsets x 840 lists x 8 format pairs"
-                   : "targets a1/a4/a8, sizes 1x1 2x1 1x2 3x2 4x3 6x4 9x2 16x2; y alphabet 10 values, x alphabet 8 values incl. +-1000 px, 2 end-point variants per edge; every horizontal "
-                     "split at an alphabet value; offsets {0,+-1}^2 on 2 sizes (reduced alphabets); shared-edge splits with 4^2 middle lines; triangles over 25 points^3 x offsets on 4x3; "
-                     "composite_trapezoids: 18 operators x 4 sources x 3 clips x 5 dst offsets x 2 src offsets x ~190 lists x 8 format pairs";
+    vf_bounds = th ? "targets a1/a4/a8 (each space = the three depths back to back). raster: all 24 sizes 1x1..6x4 plus 9x2 16x2 13x3 (and 70x1 for a1); y alphabet 11 values "
+                     "(-1, 0, first sample row and +-1 ulp, 1/4, 1/2, last row + 1 ulp, H-1/4, H, H+1), x alphabet 8 values (+-1000 px, -1 ulp, 1/4, 1/2 - 1 ulp = sample column, "
+                     "interior, W-1/4, W + 1 ulp), edge end-point variants {at top/bottom, beyond by 0.3 px given bottom-up}, 2 backgrounds; on the 8 main sizes x alphabet 12 values "
+                     "(+ 0, 1/2, 1/2 + 1 ulp, W) and 4 variants (+ long lead-in, + inner segment = extrapolated edge); on 1x1 3x2 6x4 additionally y alphabet 21 values; every case also "
+                     "through the accessor path, add_traps, and split at every y alphabet value inside. offsets {0,+-1}^2 on 5 sizes (y 11, x 8, 4 variants). shared-edge: 15 y pairs x 8^6 "
+                     "end points x 2^3 variants on 3x2 6x4 (9x2 a8). triangles: 49 points^3 x offsets on 3 sizes. composite_trapezoids: 18 operators x 4 sources x 3 clips x 5 dst offsets "
+                     "x 2 src offsets x 842 lists x 8 destination/mask format pairs on 5x3"
+                   : "targets a1/a4/a8 (each space = the three depths back to back). raster: sizes 1x1 2x1 1x2 3x2 4x3 6x4 9x2 16x2 (and 70x1 for a1); y alphabet 11 values, x alphabet 8 values "
+                     "incl. +-1000 px, edge end-point variants {at top/bottom, beyond by 0.3 px}, 2 backgrounds up to 6 pixels; extrapolated-edge variant on 3x2 6x4; every case also through "
+                     "the accessor path, add_traps, and split at every y alphabet value inside. offsets {0,+-1}^2 on 2x2 5x3 (y 6, x 4 values). shared-edge: 15 y pairs x 4^6 end points x 2^3 "
+                     "variants on 3x2 (9x2 a8). triangles: 25 points^3 x offsets on 4x3. composite_trapezoids: 18 operators x 4 sources x 3 clips x 5 dst offsets x 2 src offsets x 196 lists "
+                     "x 8 destination/mask format pairs on 5x3";
     return vf_finish();
 }
